@@ -119,7 +119,7 @@ fn erase(p: &mut Program, mask: u32, only_count: bool) -> u32 {
     // only the sites of the definitions under test: gk, gm, w, and start's body
     for t in p.tops.iter_mut() {
         if let Top::Def { name, ty, value, .. } = t {
-            if !["gk", "gm", "w", "start"].contains(&name.as_str()) {
+            if !["gk", "gm", "w", "start", "ga", "gf", "k"].contains(&name.as_str()) {
                 continue;
             }
             if site(ty.is_some(), &mut idx) {
@@ -129,6 +129,128 @@ fn erase(p: &mut Program, mask: u32, only_count: bool) -> u32 {
         }
     }
     idx
+}
+
+/// hand-written bases: generic blobs instantiated at two types, function-typed variable definitions
+/// whose value is a call (not a literal), a definition that shadows a name its value uses
+fn extra_bases() -> Vec<(&'static str, Program)> {
+    let pr = || Top::External { name: "print".into(), ty: "fn *X -> void".into() };
+    let fn_ii = Ty::Fn(vec![Ty::Int], Box::new(Ty::Int));
+    let mut v = Vec::new();
+    // generic blob, annotation without type arguments, two instantiations
+    v.push((
+        "generic-blob-two-instantiations",
+        Program {
+            tops: vec![
+                pr(),
+                Top::Raw("Box :: blob(*T) { value: *T }".into()),
+                Top::Def { name: "ga".into(), mutable: false, ty: Some(Ty::User("Box".into())), value: Expr::Blob("Box".into(), vec![("value".into(), int(1))]) },
+                start_fn(vec![
+                    Stmt::Def { name: "a".into(), mutable: false, ty: Some(Ty::User("Box".into())), value: Expr::Blob("Box".into(), vec![("value".into(), int(1))]) },
+                    Stmt::Def { name: "b".into(), mutable: false, ty: Some(Ty::User("Box".into())), value: Expr::Blob("Box".into(), vec![("value".into(), s("two"))]) },
+                    Stmt::Def { name: "c".into(), mutable: true, ty: Some(Ty::User("Box".into())), value: Expr::Blob("Box".into(), vec![("value".into(), Expr::Tuple(vec![int(1), int(2)]))]) },
+                    print_of(field(var("a"), "value")),
+                    print_of(field(var("b"), "value")),
+                    print_of(field(var("c"), "value")),
+                    print_of(field(var("ga"), "value")),
+                ]),
+            ],
+        },
+    ));
+    v.push((
+        "generic-enum-two-instantiations",
+        Program {
+            tops: vec![
+                pr(),
+                Top::Raw("Opt :: enum(*T)\n    Some *T,\n    Non,\nend".into()),
+                start_fn(vec![
+                    Stmt::Def { name: "a".into(), mutable: false, ty: Some(Ty::User("Opt".into())), value: Expr::Variant("Opt".into(), "Some".into(), Some(Box::new(int(1)))) },
+                    Stmt::Def { name: "b".into(), mutable: false, ty: Some(Ty::User("Opt".into())), value: Expr::Variant("Opt".into(), "Some".into(), Some(Box::new(s("x")))) },
+                    Stmt::Def { name: "c".into(), mutable: false, ty: Some(Ty::User("Opt".into())), value: Expr::Variant("Opt".into(), "Non".into(), None) },
+                    print_of(var("a")),
+                    print_of(var("b")),
+                    print_of(var("c")),
+                ]),
+            ],
+        },
+    ));
+    // function-typed definitions whose value is computed
+    let twice = top_fn("twice", vec![("f", Some(fn_ii.clone()))], RetAnn::Ty(fn_ii.clone()), vec![Stmt::Expr(lambda(vec![("q", Some(Ty::Int))], RetAnn::Ty(Ty::Int), vec![Stmt::Expr(callv("f", vec![callv("f", vec![var("q")])]))]))]);
+    v.push((
+        "function-typed-definition-from-a-call",
+        Program {
+            tops: vec![
+                pr(),
+                twice.clone(),
+                Top::Def { name: "gf".into(), mutable: false, ty: Some(fn_ii.clone()), value: callv("twice", vec![lambda(vec![("n", Some(Ty::Int))], RetAnn::Ty(Ty::Int), vec![Stmt::Expr(bin(BinOp::Add, var("n"), int(1)))])]) },
+                start_fn(vec![
+                    Stmt::Def { name: "f".into(), mutable: false, ty: Some(fn_ii.clone()), value: callv("twice", vec![lambda(vec![("n", Some(Ty::Int))], RetAnn::Ty(Ty::Int), vec![def("m", bin(BinOp::Mul, var("n"), int(2))), Stmt::Expr(var("m"))])]) },
+                    Stmt::Def { name: "h".into(), mutable: true, ty: Some(fn_ii.clone()), value: var("f") },
+                    print_of(callv("f", vec![int(1)])),
+                    print_of(callv("h", vec![int(2)])),
+                    print_of(callv("gf", vec![int(3)])),
+                ]),
+            ],
+        },
+    ));
+    v.push((
+        "definition-shadowing-a-name-used-in-its-value",
+        Program {
+            tops: vec![
+                pr(),
+                twice,
+                top_fn("inc", vec![("q", Some(Ty::Int))], RetAnn::Ty(Ty::Int), vec![Stmt::Expr(bin(BinOp::Add, var("q"), int(1)))]),
+                Top::Def { name: "k".into(), mutable: false, ty: Some(Ty::Int), value: int(40) },
+                start_fn(vec![
+                    Stmt::Def { name: "inc".into(), mutable: false, ty: Some(fn_ii.clone()), value: callv("twice", vec![var("inc")]) },
+                    Stmt::Def { name: "k".into(), mutable: false, ty: Some(Ty::Int), value: callv("inc", vec![var("k")]) },
+                    Stmt::Def { name: "t".into(), mutable: false, ty: Some(Ty::Tuple(vec![Ty::Int, fn_ii.clone()])), value: Expr::Tuple(vec![var("k"), var("inc")]) },
+                    print_of(var("k")),
+                    print_of(call(Expr::Index(Box::new(var("t")), 1), vec![int(0)])),
+                ]),
+            ],
+        },
+    ));
+    v
+}
+
+fn check_base(acc: &mut Stats, name: &str, full: &Program) {
+    let nsites = erase(&mut full.clone(), 0, true);
+    let mut erased = full.clone();
+    erase(&mut erased, 0, false);
+    let erased_text = print_program(&erased).text;
+    let ref_bytes = match compile_src(&erased_text) {
+        Outcome::Ok(b) => b,
+        other => {
+            acc.count("base-rejected-without-annotations", 1);
+            acc.sample(json!({"base_rejected": erased_text, "result": other.short()}));
+            return;
+        }
+    };
+    acc.states += 1;
+    acc.nontrivial(fnv(erased_text.as_bytes()));
+    for mask in 1..(1u32 << nsites) {
+        let mut v = full.clone();
+        erase(&mut v, mask, false);
+        let text = print_program(&v).text;
+        let out = compile_src(&text);
+        acc.evaluations += 1;
+        let fail = match &out {
+            Outcome::Ok(b) if *b == ref_bytes => None,
+            Outcome::Ok(_) => Some(("annotation-changes-lua".to_string(), "the emitted Lua differs from that of the un-annotated program".to_string())),
+            Outcome::Err { errs, .. } => Some(("annotated-variant-rejected".to_string(), errs.first().map(|e| e.dbg.clone()).unwrap_or_default())),
+            Outcome::Panic { msg, .. } => Some(("panic".to_string(), msg.clone())),
+        };
+        match fail {
+            None => acc.outcome("accepted-same-bytes"),
+            Some((sig, detail)) => {
+                acc.outcome(&sig);
+                let mut files = serde_json::Map::new();
+                files.insert(MAIN.to_string(), json!(text));
+                acc.fail(Failure { sig, preds: vec![format!("base:{}", name)], detail: format!("annotated variant (mask {:b} of {} sites) of {}:\n{}\n{}\nun-annotated program:\n{}", mask, nsites, name, text, detail, erased_text), case: json!({"engine": "c08", "files": files, "erased": erased_text}), size: text.len() });
+            }
+        }
+    }
 }
 
 pub fn run(run: &mut Run) {
@@ -209,6 +331,11 @@ pub fn run(run: &mut Run) {
         }
     }, &stop);
     run.stats = Stats::merge_all(accs);
+    for (name, base) in extra_bases() {
+        let mut acc = Stats::new();
+        check_base(&mut acc, name, &base);
+        run.stats.merge(acc);
+    }
     run.rule = "base programs: for every type (int, float, bool, str, tuple, blob, enum, list) and every expression of that type with at most n operator nodes, a program with annotation sites on a global constant, a global variable, two parameters, a return type, a local in a function, two locals in start (thorough: also a closure's parameter and return type); every subset of the 8 (10) sites is compiled; non-trivial = base accepted; distinct by base text".into();
     run.bounds = json!({"max_expression_size": if thorough {2} else {1}, "sites": if thorough {"10 for size<=1, 8 for size 2"} else {"8"}});
     run.assumptions = vec![
